@@ -10,11 +10,15 @@ persisted attribute values); (2) exactly one subtype per ACT_SMT across R603
 and per V_VAL across R801, counted over all subtype classes; (3) the persisted
 ACT_SMT.Previous_Statement_ID, V_PAR.Next_Value_ID and ACT_LNK.Next_Link_ID
 designate the neighbour in source order; (4) ACT_SMT / V_VAL line and columns
-equal the spans recorded by the printer (two layouts; also after the parser
+equal the spans recorded by the printer (three layouts, one of them with comments
+holding the characters other tools take for line ends; also after the parser
 rejected another text in the same process -- the history family); (5) every V_VAR is
 related (R823) to the block that declares it; (6) R820 / R848 data types equal
 the OAL types for the cases the property enumerates (also with the keywords
-of the program in UPPER / Capitalised spelling).
+of the program in UPPER / Capitalised spelling), and they ARE the data types
+visible from the home: in the components family the host has three components
+declaring classes, associations, functions, an external entity and operations
+of the same names with other types, the homes being in the middle one.
 '''
 from mc.props import c05 as C05
 from mc.refs import prebuildhost as H
@@ -22,6 +26,9 @@ from mc.refs import prebuildhost as H
 NEEDS_BRIDGEPOINT = True
 PROP = 'c06'
 BUDGET_S = {'quick': 300, 'thorough': 1500}
+KWCASE_BOTH = ('statements', 'expressions', 'names')      # families rendered in UPPER and in Capitalised keywords (quick)
+REMARK_FAMILIES = ('statements', 'nesting')            # families laid out with comments holding odd characters (quick)
+
 ASSUMPTIONS = C05.ASSUMPTIONS[2:] + [
     'the statements of a block, the parameters of a call and the clauses of an if are paired with the program by source position, '
     'parameter name and condition position; only when that pairing fails the creation order of the instances is used (and the position '
@@ -32,8 +39,19 @@ ASSUMPTIONS = C05.ASSUMPTIONS[2:] + [
     'parameter reads, instance and instance-set selections, self, and additionally invocations (declared return type), enumerators and '
     'constants; arithmetic results, array element accesses and `selected` are not claimed',
     'the block of the implicit variable self is not claimed (no statement declares it)',
-    'positions are checked under two layouts: one line with single spaces, and a line break plus indentation after every ";" '
-    '(every program under the first, every program in one home under the second; thorough: a third with a line break in every gap)',
+    'positions are checked under three layouts: one line with single spaces; a line break plus indentation after every ";"; and '
+    '"remarks": several lines with block comments and "//" comments in front of, behind and between the tokens of the statements, '
+    'holding form feed, vertical tab, FS, GS, RS, NEL, U+2028, U+2029 and lone carriage returns -- a line ends in "\\n" only, and '
+    'columns count from it (every program under the first, every program in one home under the second, every program of the '
+    'families %s in another home under the third; thorough: every family, and a fourth with a line break in every gap)' % (REMARK_FAMILIES,),
+    'components family: every program of the statement family in one home (rotating; thorough: every home) on the host variant '
+    '"components": one system package with three components created in the order twin, own, twin; the four homes and everything '
+    'the static description declares belong to the middle one; a twin declares classes with the same key letters and attribute '
+    'names, associations with the same numbers and phrases, functions, an external entity with the same key letters and bridges '
+    'and operations of the same names, every declared type replaced (integer -> string -> boolean -> real -> integer, Color -> '
+    'Mode).  Enumerations, constants and core types are global.  A data type of the population must be the instance visible from '
+    'the home (the instance-reference types of its own classes), not only carry the right name; which class, association or '
+    'function instance a statement is related to is not compared beyond that',
     'keyword case: every program containing a keyword the parser hands on as written (not, empty, not_empty, cardinality, and, or, '
     'true, false, any, many, one, self) is additionally translated with ALL keywords in UPPER case (one home) and, for the statement / '
     'expression / names families, Capitalised (another home; thorough: every family, plus aLtErNaTiNg); the oracle is unchanged '
@@ -55,7 +73,6 @@ def task_fn(ctx, task):
     H.stop_if_violated(ctx)
 
 
-KWCASE_BOTH = ('statements', 'expressions', 'names')      # families rendered in UPPER and in Capitalised keywords (quick)
 
 
 def with_layouts(ctx, tasks):
@@ -77,7 +94,26 @@ def with_layouts(ctx, tasks):
                 styles.append('mixed')
             for k, style in enumerate(styles, 1):
                 ts[(n + ctx.seed + k) % len(ts)]['layouts'].append(style)
+        # comments holding the characters some tools count as line ends: in the home the other styles leave free
+        if ctx.thorough or ts[0]['family'] in REMARK_FAMILIES:
+            ts[(n + ctx.seed + 3) % len(ts)]['layouts'].append('remarks')
     return tasks
+
+
+def component_tasks(ctx, tasks):
+    '''The components family: the programs of the statement family on the host variant with twin components, each in
+    one home (homes rotate with the programs; thorough: in every home), alternately through prebuild_action and
+    prebuild_model, every fourth one in the multi-line layout.'''
+    progs = {}
+    for t in tasks:
+        if t['family'] == 'statements':
+            progs.setdefault(repr(t['stmts']), []).append(t)
+    out = []
+    for n, (_, ts) in enumerate(sorted(progs.items())):
+        for t in (ts if ctx.thorough else [ts[(n + ctx.seed) % len(ts)]]):
+            out.append(dict(family='components', stmts=t['stmts'], home=t['home'], entry='model' if (n + ctx.seed) % 2 else 'action',
+                            host='components', layouts=['lines' if n % 4 == 3 else 'default']))
+    return out
 
 
 def history_tasks(ctx, tasks):
@@ -98,7 +134,7 @@ def run(ctx):
     from mc import core
     tasks, bounds = H.all_tasks(ctx.tier, ctx.seed)
     tasks = with_layouts(ctx, tasks)
-    tasks = tasks + history_tasks(ctx, tasks)
+    tasks = tasks + history_tasks(ctx, tasks) + component_tasks(ctx, tasks)
     k = (ctx.seed * 97) % max(1, len(tasks))
     tasks = tasks[k:] + tasks[:k]
     ctx.notes['bounds'] = bounds
@@ -112,6 +148,12 @@ def run(ctx):
     ctx.require(ctx.n('layout:lines') >= ctx.nd('programs'), 'the multi-line layout was not applied to every program')
     ctx.require(ctx.n('layout:upper') >= 800 and ctx.n('layout:cap') >= 600,
                 'too few programs in upper-case / capitalised keywords (%d / %d)' % (ctx.n('layout:upper'), ctx.n('layout:cap')))
+    ctx.require(ctx.n('layout:remarks') >= 1200 and ctx.n('remark_characters') >= 15 * ctx.n('layout:remarks'),
+                'too few programs laid out with comments holding odd characters (%d programs, %d characters)' %
+                (ctx.n('layout:remarks'), ctx.n('remark_characters')))
+    ctx.require(ctx.n('family:components') >= 500 and ctx.n('namesake_checks') >= 2 * ctx.n('family:components'),
+                'components family: %d programs, %d data types with a namesake in another component compared' %
+                (ctx.n('family:components'), ctx.n('namesake_checks')))
     nh = len(H.histories())
     ctx.require(ctx.n('history_runs') >= 20 * nh and ctx.n('history_not_judged') == 0 or ctx.caps_hit,
                 'history family: %d runs judged, %d not judged (%d histories)' % (ctx.n('history_runs'), ctx.n('history_not_judged'), nh))
@@ -177,7 +219,7 @@ def replay(ctx, case):
         second_model_task(ctx, case)
         return
     task = dict(family=case['family'], stmts=case['stmts'], home=case['home'], entry=case.get('entry', 'action'),
-                layout=case.get('layout', 'default'), history=case.get('history'))
+                layout=case.get('layout', 'default'), history=case.get('history'), host=case.get('host'))
     H.c06_run(ctx, task)
 
 
@@ -197,6 +239,11 @@ def coverage(ctx):
         history_family=dict(histories=H.histories(), rejected_texts=H.REJECTED_TEXTS, accepted_texts=H.ACCEPTED_TEXTS,
                             runs_judged=ctx.n('history_runs'), runs_not_judged=ctx.n('history_not_judged'),
                             steps=ctx.n('history_steps')),
+        components_family=dict(host_variant='components: three components (twin, own, twin) below one system package',
+                               twin_types=H.TWIN_RETYPE, programs=ctx.n('family:components'),
+                               data_types_with_a_namesake_compared=ctx.n('namesake_checks')),
+        remarks_layout=dict(families_quick=REMARK_FAMILIES, programs=ctx.n('layout:remarks'),
+                            characters=[hex(ord(c)) for c in H.ODD_CHARACTERS + '\r'], characters_placed=ctx.n('remark_characters')),
         keyword_case=dict(styles_quick=dict(upper='every program spelling a keyword through to the translator',
                                             cap='those of the families %s' % (KWCASE_BOTH,)),
                           styles_thorough='upper, cap, mixed for every such program',
